@@ -770,6 +770,7 @@ type mfrag struct {
 }
 
 type tokCase struct {
+	Want   *string  `json:"want"` // text cases: the formatted text a model predicts (drift only)
 	Toks   []string `json:"toks"`
 	FF     bool     `json:"ff"`
 	Result string   `json:"result"`
@@ -872,7 +873,6 @@ func bclToksDriver(raw json.RawMessage) *Out {
 	f1, fmtOK := c09Law(input, cls09, out)
 	edits, edOK := c19Law(input, cls, out)
 	out.Nontrivial = true
-	_ = fmtOK
 	if edOK && edits != nil {
 		if fo, err := parser.Fmt(input); err == nil {
 			f1 = fo
@@ -906,6 +906,9 @@ func bclToksDriver(raw json.RawMessage) *Out {
 		}
 	}
 	if c.Text != nil {
+		if c.Want != nil && fmtOK && f1 != *c.Want {
+			out.D("bcl|reflow-prediction", "Fmt(%q) = %q, the re-flow model predicts %q", input, f1, *c.Want)
+		}
 		return out
 	}
 	// ---- conformance of the model (drift only) ----
